@@ -2,7 +2,7 @@
 from . import loop, xform
 
 OWNED = ["C11.", "C12.result_is_last_accepted", "C01.gate.", "C04.cons", "C04.cons_jac", "C04.lag_hess", "C04.obj_grad", "C04.obj"]
-REQUIRED = ["C11.solve_leaves_the_start_point_unchanged", "C11.solve_leaves_cached_callback_results_unchanged", "C11.solve_leaves_bound_arrays_unchanged", "C11.caller_owned_unchanged", "C11.cached_callback_results_unchanged", "C11.argument_arrays_unchanged", "C11.start_point_unchanged", "C04.cons_jac", "C04.lag_hess"]
+REQUIRED = ["C11.scaling_inputs_unchanged", "C11.scaling_leaves_cached_callback_results_unchanged", "C11.solve_leaves_the_start_point_unchanged", "C11.solve_leaves_cached_callback_results_unchanged", "C11.solve_leaves_bound_arrays_unchanged", "C11.caller_owned_unchanged", "C11.cached_callback_results_unchanged", "C11.argument_arrays_unchanged", "C11.start_point_unchanged", "C04.cons_jac", "C04.lag_hess"]
 META = dict(
     functions_encoded=xform.FUNCTIONS,
     stubs=["user Problem callbacks := uninterpreted functions; return policy in {cached constant J/H object, memoised per point (same object for the same point)}; formats COO/CSR/CSC with scipy's measured share/copy table"],
@@ -22,6 +22,18 @@ def tasks(tier):
     K = 1 if tier == "quick" else 2
     t += loop.loop_tasks([dict(policy="DualNorm", cons=["eq0"], policy_cb=pc, fmt=f) for pc, f in (("cached", "coo"), ("memo", "csr"), ("memo", "coo"))], K)
     t += loop.loop_tasks([dict(policy="DualNorm", cons=["ge"], policy_cb="memo", fmt="csc")], K)
+    # automatic scalings read user-owned arrays (scaling point, callback results at that point)
+    def so(fw, ew, **k):
+        d = dict(frexp_window=(-fw, fw), exp_window=(-ew, ew))
+        d.update(k)
+        return d
+
+    t.append(dict(module="scal", fn="h_nominal", shape=dict(W0=3, n=2, m=1), opts=so(5, 10)))
+    t.append(dict(module="scal", fn="h_gradjac", shape=dict(W0=3, n=2, m=1, fmt="coo"), opts=so(8, 16)))
+    t.append(dict(module="scal", fn="h_gradjac", shape=dict(W0=3, n=1, m=1, fmt="csr"), opts=so(8, 16)))
+    t.append(dict(module="scal", fn="h_kkt", shape=dict(W0=3, n=1, m=1, unwind=3), opts=so(8, 24, sqrt_model="lazy")))
+    for kind in ("GradJac", "Nominal"):
+        t.append(dict(module="scal", fn="h_dispatch", shape=dict(W0=3, kind=kind, policy="memo"), opts=so(8, 24)))
     if tier == "quick":
         for pol in ("cached", "memo"):
             for k, (fmt, c, W) in enumerate([("coo", ["eq0"], 1), ("csr", ["ge"], 1), ("csc", ["eqb"], 1), ("coo", ["eqb"], 0), ("csr", ["ranged"], 0), ("coo", ["ge"], 0)]):
